@@ -3,6 +3,7 @@
 -/
 import SodiumVerif.Model.Sched
 import SodiumVerif.Model.SchedScript
+import SodiumVerif.Lemmas.SchedInv
 
 namespace SodiumVerif
 namespace Sched
@@ -19,6 +20,339 @@ theorem dfs_glitch_witness :
 theorem queue_no_glitch_on_d1 :
     (transaction false (SchedScript.F d1Graph) [(1, ()), (0, ())] d1Graph).log = [2, 3] ∧
     (transaction false (SchedScript.F d1Graph) [(0, ()), (1, ())] d1Graph).log = [2, 3] := by decide
+
+/-! ## Glitch freedom of the repaired (queue) scheduler, for every graph
+
+  Setting (`Lemmas/SchedInv.lean`): `g : G` is the graph stored in the state (`HasGraph g s`, e.g.
+  `g = graphOf s`), a *source* is a node with `g.deps j = []`.  `WF g F rank n depth`: `rank` strictly
+  decreases along `deps` and is `< depth`; every `i` with `d ∈ deps i` occurs in `dependents d`; `F i` reads
+  only the slots of `deps i`; all dependents are `< n`.  `Init g n s`: nothing visited, non-source nodes have
+  `val = none`, `changed = false`, every changed node is in the queue (entries `< n`, any order, duplicates
+  allowed), `oof = false`, `log = []`.  No assumption on the order of any `deps`/`dependents` list.
+
+  The scheduler never runs the update of a source (`[].any _ = false`), so no hypothesis "`F` gives no value
+  to sources" is needed.
+-/
+
+variable {V : Type}
+
+/-- core: the drain loop ends in a state with empty queue that satisfies the scheduler invariant with
+    nothing in progress and nothing pending, and only added `visited` flags / non-source values -/
+theorem drain_final {g : G} {F : Nat → (Nat → Option V) → Option V} {rank : Nat → Nat} {n depth fuel : Nat}
+    {s : St V} (wf : WF g F rank n depth) (hi : Init g n s) (hfuel : n + 2 ≤ fuel) :
+    Inv g F (drain false F depth fuel s) noP [] ∧ (drain false F depth fuel s).queue = [] ∧
+    Frame g s (drain false F depth fuel s) :=
+  drain_ok wf fuel s hi.inv hi.qbnd (by have := unvisited_le_n n s; omega)
+
+/-- **C03 (i)–(iv)** for `drain false`:
+    (i) it terminates within `n + 2` rounds and recursion depth `depth` (`oof` stays `false`, queue empty);
+    (ii) every update closure runs at most once;
+    (iii) every non-source node ends with `val = if some dependency changed then F (final slots) else none`
+         — the update of a node saw the final values of all its dependencies, or did not run at all —
+         and `changed = val.isSome`; source slots are untouched;
+    (iv) every node with a changed dependency was visited; an unvisited non-source node has no changed
+         dependency and `val = none`. -/
+theorem sched_glitch_free {g : G} {F : Nat → (Nat → Option V) → Option V} {rank : Nat → Nat} {n depth fuel : Nat}
+    {s : St V} (wf : WF g F rank n depth) (hi : Init g n s) (hfuel : n + 2 ≤ fuel) :
+    (drain false F depth fuel s).oof = false ∧
+    (drain false F depth fuel s).queue = [] ∧
+    (drain false F depth fuel s).log.Nodup ∧
+    FixedPoint g F (drain false F depth fuel s) ∧
+    (∀ j, g.deps j = [] →
+      ((drain false F depth fuel s).nodes.get j).val = (s.nodes.get j).val ∧
+      ((drain false F depth fuel s).nodes.get j).changed = (s.nodes.get j).changed) ∧
+    (∀ j, (g.deps j).any (fun d => ((drain false F depth fuel s).nodes.get d).changed) = true →
+      ((drain false F depth fuel s).nodes.get j).visited = true) ∧
+    (∀ j, g.deps j ≠ [] → ((drain false F depth fuel s).nodes.get j).visited = false →
+      ((drain false F depth fuel s).nodes.get j).val = none ∧
+      (g.deps j).any (fun d => ((drain false F depth fuel s).nodes.get d).changed) = false) := by
+  obtain ⟨hinv, hq, fr⟩ := drain_final wf hi hfuel
+  refine ⟨fr.oof.trans hi.oof, hq, hinv.lognd, hinv.fixedPoint hq, fun j hj => fr.keep j (Or.inr hj),
+    hinv.complete hq, fun j hs hv => ⟨(hinv.fresh j (Or.inl hv) hs).1, ?_⟩⟩
+  cases h : (g.deps j).any (fun d => ((drain false F depth fuel s).nodes.get d).changed) with
+  | false => rfl
+  | true => rw [hinv.complete hq j h] at hv; cases hv
+
+theorem sched_terminates {g : G} {F : Nat → (Nat → Option V) → Option V} {rank : Nat → Nat} {n depth fuel : Nat}
+    {s : St V} (wf : WF g F rank n depth) (hi : Init g n s) (hfuel : n + 2 ≤ fuel) :
+    (drain false F depth fuel s).oof = false ∧ (drain false F depth fuel s).queue = [] :=
+  ⟨(sched_glitch_free wf hi hfuel).1, (sched_glitch_free wf hi hfuel).2.1⟩
+
+theorem sched_runs_once {g : G} {F : Nat → (Nat → Option V) → Option V} {rank : Nat → Nat} {n depth fuel : Nat}
+    {s : St V} (wf : WF g F rank n depth) (hi : Init g n s) (hfuel : n + 2 ≤ fuel) :
+    (drain false F depth fuel s).log.Nodup :=
+  (sched_glitch_free wf hi hfuel).2.2.1
+
+/-- **C03 (ii), sharpened**: the update closure of `j` runs (exactly once, by `sched_runs_once`) iff one of
+    its dependencies changed in this transaction. -/
+theorem sched_runs_iff {g : G} {F : Nat → (Nat → Option V) → Option V} {rank : Nat → Nat} {n depth fuel : Nat}
+    {s : St V} (wf : WF g F rank n depth) (hi : Init g n s) (hfuel : n + 2 ≤ fuel) (j : Nat) :
+    j ∈ (drain false F depth fuel s).log ↔
+      (g.deps j).any (fun d => ((drain false F depth fuel s).nodes.get d).changed) = true := by
+  obtain ⟨hinv, hq, _⟩ := drain_final wf hi hfuel
+  exact hinv.log_iff hq j
+
+theorem deps_nil_of_perm {g g' : G} (hperm : ∀ i d, d ∈ g.deps i ↔ d ∈ g'.deps i) {j : Nat}
+    (h : g.deps j = []) : g'.deps j = [] := by
+  cases hd : g'.deps j with
+  | nil => rfl
+  | cons a t =>
+    have : a ∈ g.deps j := (hperm j a).mpr (by rw [hd]; exact List.mem_cons_self)
+    rw [h] at this; cases this
+
+/-- **C03, order independence** for `drain false`: two runs on graphs whose `deps` lists have the same
+    members (any order / multiplicity; `dependents` lists and queues arbitrary within `WF`/`Init`), started
+    with the same source slots, end with the same `val` and `changed` in every node. -/
+theorem sched_result_unique {g g' : G} {F : Nat → (Nat → Option V) → Option V} {rank rank' : Nat → Nat}
+    {n n' depth depth' fuel fuel' : Nat} {s s' : St V}
+    (wf : WF g F rank n depth) (wf' : WF g' F rank' n' depth')
+    (hperm : ∀ i d, d ∈ g.deps i ↔ d ∈ g'.deps i)
+    (hi : Init g n s) (hi' : Init g' n' s') (hfuel : n + 2 ≤ fuel) (hfuel' : n' + 2 ≤ fuel')
+    (hsrc : ∀ j, g.deps j = [] →
+      (s'.nodes.get j).val = (s.nodes.get j).val ∧ (s'.nodes.get j).changed = (s.nodes.get j).changed) :
+    ∀ j, ((drain false F depth' fuel' s').nodes.get j).val = ((drain false F depth fuel s).nodes.get j).val ∧
+      ((drain false F depth' fuel' s').nodes.get j).changed = ((drain false F depth fuel s).nodes.get j).changed := by
+  obtain ⟨_, _, _, hfp, hkeep, _⟩ := sched_glitch_free wf hi hfuel
+  obtain ⟨_, _, _, hfp', hkeep', _⟩ := sched_glitch_free wf' hi' hfuel'
+  refine fixedPoint_unique wf.dag wf.loc hperm hfp hfp' (fun j hj => ?_)
+  have h1 := hkeep j hj
+  have h2 := hkeep' j (deps_nil_of_perm hperm hj)
+  have h3 := hsrc j hj
+  exact ⟨h2.1.trans (h3.1.trans h1.1.symm), h2.2.trans (h3.2.trans h1.2.symm)⟩
+
+/-- **C03** for a whole `transaction false` (fire the sources `srcs`, drain with the model's own fuel
+    `n·n + n + 2` and depth `n + 2`, reset `visited`): no fuel runs out, every update runs at most once, the
+    value slots are the fixed point of the update functions over the fired source slots. -/
+theorem transaction_glitch_free {g : G} {F : Nat → (Nat → Option V) → Option V} {rank : Nat → Nat}
+    {s : St V} {srcs : List (Nat × V)} (wf : WF g F rank s.n (s.n + 2)) (hi : Init g s.n s)
+    (hs : ∀ p ∈ srcs, g.deps p.1 = [] ∧ p.1 < s.n) :
+    (transaction false F srcs s).oof = false ∧
+    (transaction false F srcs s).queue = [] ∧
+    (transaction false F srcs s).log.Nodup ∧
+    FixedPoint g F (transaction false F srcs s) ∧
+    (∀ j, g.deps j = [] →
+      ((transaction false F srcs s).nodes.get j).val = ((fireSources srcs s).nodes.get j).val ∧
+      ((transaction false F srcs s).nodes.get j).changed = ((fireSources srcs s).nodes.get j).changed) := by
+  rw [transaction_eq, fireSources_n]
+  have hi1 : Init g s.n (fireSources srcs s) := hi.fireSources srcs s hs
+  obtain ⟨h1, h2, h3, h4, h5, _⟩ := sched_glitch_free (fuel := s.n * s.n + s.n + 2) wf hi1 (by omega)
+  generalize drain false F (s.n + 2) (s.n * s.n + s.n + 2) (fireSources srcs s) = s1 at h1 h2 h3 h4 h5 ⊢
+  obtain ⟨r1, r2, r3, r4⟩ := resetVisited_spec s1
+  refine ⟨r3.trans h1, r4.trans h2, by rw [r2]; exact h3, h4.congr r1, fun j hj => ?_⟩
+  exact ⟨(r1 j).1.trans (h5 j hj).1, (r1 j).2.trans (h5 j hj).2⟩
+
+theorem transaction_runs_iff {g : G} {F : Nat → (Nat → Option V) → Option V} {rank : Nat → Nat}
+    {s : St V} {srcs : List (Nat × V)} (wf : WF g F rank s.n (s.n + 2)) (hi : Init g s.n s)
+    (hs : ∀ p ∈ srcs, g.deps p.1 = [] ∧ p.1 < s.n) (j : Nat) :
+    j ∈ (transaction false F srcs s).log ↔
+      (g.deps j).any (fun d => ((transaction false F srcs s).nodes.get d).changed) = true := by
+  rw [transaction_eq, fireSources_n]
+  have hi1 : Init g s.n (fireSources srcs s) := hi.fireSources srcs s hs
+  have h := sched_runs_iff (fuel := s.n * s.n + s.n + 2) wf hi1 (by omega) j
+  generalize drain false F (s.n + 2) (s.n * s.n + s.n + 2) (fireSources srcs s) = s1 at h ⊢
+  obtain ⟨r1, r2, _, _⟩ := resetVisited_spec s1
+  have hc : (fun d => ((resetVisited s1).nodes.get d).changed) = (fun d => (s1.nodes.get d).changed) :=
+    funext fun k => (r1 k).2
+  rw [r2, hc]; exact h
+
+/-- **C03, order independence** for `transaction false`: two transactions on states whose `deps` lists
+    have the same members and whose fired source slots agree yield the same `val`/`changed` everywhere —
+    the result does not depend on the order of any `deps`/`dependents` list nor on the order or
+    duplication of the sends. -/
+theorem transaction_result_unique {g g' : G} {F : Nat → (Nat → Option V) → Option V} {rank rank' : Nat → Nat}
+    {s s' : St V} {srcs srcs' : List (Nat × V)}
+    (wf : WF g F rank s.n (s.n + 2)) (wf' : WF g' F rank' s'.n (s'.n + 2))
+    (hperm : ∀ i d, d ∈ g.deps i ↔ d ∈ g'.deps i)
+    (hi : Init g s.n s) (hi' : Init g' s'.n s')
+    (hs : ∀ p ∈ srcs, g.deps p.1 = [] ∧ p.1 < s.n) (hs' : ∀ p ∈ srcs', g'.deps p.1 = [] ∧ p.1 < s'.n)
+    (hsrc : ∀ j, g.deps j = [] →
+      ((fireSources srcs' s').nodes.get j).val = ((fireSources srcs s).nodes.get j).val ∧
+      ((fireSources srcs' s').nodes.get j).changed = ((fireSources srcs s).nodes.get j).changed) :
+    ∀ j, ((transaction false F srcs' s').nodes.get j).val = ((transaction false F srcs s).nodes.get j).val ∧
+      ((transaction false F srcs' s').nodes.get j).changed = ((transaction false F srcs s).nodes.get j).changed := by
+  obtain ⟨_, _, _, hfp, hkeep⟩ := transaction_glitch_free wf hi hs
+  obtain ⟨_, _, _, hfp', hkeep'⟩ := transaction_glitch_free wf' hi' hs'
+  refine fixedPoint_unique wf.dag wf.loc hperm hfp hfp' (fun j hj => ?_)
+  have h1 := hkeep j hj
+  have h2 := hkeep' j (deps_nil_of_perm hperm hj)
+  have h3 := hsrc j hj
+  exact ⟨h2.1.trans (h3.1.trans h1.1.symm), h2.2.trans (h3.2.trans h1.2.symm)⟩
+
+
+/-! ### the hypotheses are satisfiable: `d1Graph`, rank = node id -/
+
+theorem store_get_ge {α : Type} [Inhabited α] (st : Store α) (i : Nat) (h : st.arr.size ≤ i) :
+    st.get i = default := by
+  unfold Store.get
+  rw [Array.getElem?_eq_none h]; rfl
+
+theorem d1_node (i : Nat) : d1Graph.nodes.get i =
+    match i with
+    | 0 => { dependents := [2, 3] }
+    | 1 => { dependents := [2] }
+    | 2 => { deps := [0, 1], dependents := [3] }
+    | 3 => { deps := [0, 2] }
+    | _ => {} := by
+  rcases i with _ | _ | _ | _ | i
+  · rfl
+  · rfl
+  · rfl
+  · rfl
+  · exact store_get_ge _ _ (by have : d1Graph.nodes.arr.size = 4 := by decide
+                               omega)
+
+/-- the graph stored in `d1Graph` -/
+def d1G : G := graphOf d1Graph
+
+/-- rank = node id (nodes `≥ 4` do not exist) -/
+def d1rank (i : Nat) : Nat := if i < 4 then i else 0
+
+theorem scriptF_loc (s : St Unit) (i : Nat) (v v' : Nat → Option Unit)
+    (h : ∀ d ∈ (graphOf s).deps i, v d = v' d) : SchedScript.F s i v = SchedScript.F s i v' := by
+  unfold SchedScript.F
+  rw [any_congr_mem (l := (s.nodes.get i).deps) (fun d hd => by rw [h d hd])]
+
+theorem d1_wf : WF d1G (SchedScript.F d1Graph) d1rank 4 6 := by
+  refine ⟨?_, ?_, ?_, scriptF_loc d1Graph, ?_⟩
+  · intro i d h
+    have h' : d ∈ (d1Graph.nodes.get i).deps := h
+    rw [d1_node] at h'
+    rcases i with _ | _ | _ | _ | i <;> simp at h'
+    · rcases h' with rfl | rfl <;> decide
+    · rcases h' with rfl | rfl <;> decide
+  · intro i; unfold d1rank; split <;> omega
+  · intro i d h
+    have h' : d ∈ (d1Graph.nodes.get i).deps := h
+    show i ∈ (d1Graph.nodes.get d).dependents
+    rw [d1_node] at h'
+    rcases i with _ | _ | _ | _ | i <;> simp at h'
+    · rcases h' with rfl | rfl <;> decide
+    · rcases h' with rfl | rfl <;> decide
+  · intro d i h
+    have h' : i ∈ (d1Graph.nodes.get d).dependents := h
+    rw [d1_node] at h'
+    rcases d with _ | _ | _ | _ | d <;> simp at h' <;> omega
+
+theorem d1_init : Init d1G 4 d1Graph := by
+  refine ⟨hasGraph_graphOf _, ?_, ?_, ?_, ?_, rfl, rfl⟩
+  · intro j; rw [d1_node]; rcases j with _ | _ | _ | _ | j <;> rfl
+  · intro j _; rw [d1_node]; rcases j with _ | _ | _ | _ | j <;> exact ⟨rfl, rfl⟩
+  · intro j h; rw [d1_node] at h; rcases j with _ | _ | _ | _ | j <;> cases h
+  · intro a h; cases h
+
+theorem d1_srcs : ∀ p ∈ [(1, ()), (0, ())], d1G.deps p.1 = [] ∧ p.1 < 4 := by
+  intro p hp
+  simp only [List.mem_cons, List.not_mem_nil, or_false] at hp
+  rcases hp with rfl | rfl <;> exact ⟨rfl, by decide⟩
+
+example : WF d1G (SchedScript.F d1Graph) d1rank d1Graph.n (d1Graph.n + 2) := d1_wf
+example : Init d1G 4 (fireSources [(1, ()), (0, ())] d1Graph) := d1_init.fireSources _ _ d1_srcs
+
+/-- `sched_glitch_free` / `sched_terminates` / `sched_runs_once` / `sched_runs_iff` instantiated -/
+example :
+    (drain false (SchedScript.F d1Graph) 6 22 (fireSources [(1, ()), (0, ())] d1Graph)).oof = false ∧
+    (drain false (SchedScript.F d1Graph) 6 22 (fireSources [(1, ()), (0, ())] d1Graph)).log.Nodup ∧
+    FixedPoint d1G (SchedScript.F d1Graph)
+      (drain false (SchedScript.F d1Graph) 6 22 (fireSources [(1, ()), (0, ())] d1Graph)) :=
+  have h := sched_glitch_free (fuel := 22) d1_wf (d1_init.fireSources _ _ d1_srcs) (by decide)
+  ⟨h.1, h.2.2.1, h.2.2.2.1⟩
+
+example : (drain false (SchedScript.F d1Graph) 6 22 (fireSources [(1, ()), (0, ())] d1Graph)).oof = false :=
+  (sched_terminates (fuel := 22) d1_wf (d1_init.fireSources _ _ d1_srcs) (by decide)).1
+
+example : (drain false (SchedScript.F d1Graph) 6 22 (fireSources [(1, ()), (0, ())] d1Graph)).log.Nodup :=
+  sched_runs_once (fuel := 22) d1_wf (d1_init.fireSources _ _ d1_srcs) (by decide)
+
+example : 3 ∈ (drain false (SchedScript.F d1Graph) 6 22 (fireSources [(1, ()), (0, ())] d1Graph)).log ↔
+    (d1G.deps 3).any (fun d =>
+      ((drain false (SchedScript.F d1Graph) 6 22 (fireSources [(1, ()), (0, ())] d1Graph)).nodes.get d).changed) = true :=
+  sched_runs_iff (fuel := 22) d1_wf (d1_init.fireSources _ _ d1_srcs) (by decide) 3
+
+/-- `transaction_glitch_free` instantiated on the D1 scenario -/
+example : FixedPoint d1G (SchedScript.F d1Graph)
+    (transaction false (SchedScript.F d1Graph) [(1, ()), (0, ())] d1Graph) :=
+  (transaction_glitch_free (s := d1Graph) d1_wf d1_init d1_srcs).2.2.2.1
+
+/-- the same four nodes with every `deps` list registered in the opposite order -/
+def d1Graph' : St Unit := newNode [2, 0] (newNode [1, 0] (newNode [] (newNode [] {})))
+
+theorem d1'_node (i : Nat) : d1Graph'.nodes.get i =
+    match i with
+    | 0 => { dependents := [2, 3] }
+    | 1 => { dependents := [2] }
+    | 2 => { deps := [1, 0], dependents := [3] }
+    | 3 => { deps := [2, 0] }
+    | _ => {} := by
+  rcases i with _ | _ | _ | _ | i
+  · rfl
+  · rfl
+  · rfl
+  · rfl
+  · exact store_get_ge _ _ (by have : d1Graph'.nodes.arr.size = 4 := by decide
+                               omega)
+
+theorem d1_perm (i d : Nat) : d ∈ d1G.deps i ↔ d ∈ (graphOf d1Graph').deps i := by
+  show d ∈ (d1Graph.nodes.get i).deps ↔ d ∈ (d1Graph'.nodes.get i).deps
+  rw [d1_node, d1'_node]
+  rcases i with _ | _ | _ | _ | i <;> simp <;> omega
+
+/-- `sched_result_unique` / `fixedPoint_unique` instantiated: any state that is a fixed point for the
+    reordered graph and agrees on the sources agrees with the result of the transaction everywhere -/
+example (s' : St Unit) (h' : FixedPoint (graphOf d1Graph') (SchedScript.F d1Graph) s')
+    (hsrc : ∀ j, d1G.deps j = [] →
+      (s'.nodes.get j).val = ((transaction false (SchedScript.F d1Graph) [(1, ()), (0, ())] d1Graph).nodes.get j).val ∧
+      (s'.nodes.get j).changed =
+        ((transaction false (SchedScript.F d1Graph) [(1, ()), (0, ())] d1Graph).nodes.get j).changed) (j : Nat) :
+    (s'.nodes.get j).val = ((transaction false (SchedScript.F d1Graph) [(1, ()), (0, ())] d1Graph).nodes.get j).val :=
+  (fixedPoint_unique d1_wf.dag d1_wf.loc d1_perm
+    (transaction_glitch_free (s := d1Graph) d1_wf d1_init d1_srcs).2.2.2.1 h' hsrc j).1
+
+theorem d1'_wf : WF (graphOf d1Graph') (SchedScript.F d1Graph) d1rank 4 6 := by
+  refine ⟨?_, d1_wf.depth, ?_, ?_, ?_⟩
+  · intro i d h; exact d1_wf.dag i d ((d1_perm i d).mpr h)
+  · intro i d h
+    have h' : d ∈ (d1Graph'.nodes.get i).deps := h
+    show i ∈ (d1Graph'.nodes.get d).dependents
+    rw [d1'_node] at h'
+    rcases i with _ | _ | _ | _ | i <;> simp at h'
+    · rcases h' with rfl | rfl <;> decide
+    · rcases h' with rfl | rfl <;> decide
+  · intro i v v' h; exact d1_wf.loc i v v' (fun d hd => h d ((d1_perm i d).mp hd))
+  · intro d i h
+    have h' : i ∈ (d1Graph'.nodes.get d).dependents := h
+    rw [d1'_node] at h'
+    rcases d with _ | _ | _ | _ | d <;> simp at h' <;> omega
+
+theorem d1'_init : Init (graphOf d1Graph') 4 d1Graph' := by
+  refine ⟨hasGraph_graphOf _, ?_, ?_, ?_, ?_, rfl, rfl⟩
+  · intro j; rw [d1'_node]; rcases j with _ | _ | _ | _ | j <;> rfl
+  · intro j _; rw [d1'_node]; rcases j with _ | _ | _ | _ | j <;> exact ⟨rfl, rfl⟩
+  · intro j h; rw [d1'_node] at h; rcases j with _ | _ | _ | _ | j <;> cases h
+  · intro a h; cases h
+
+/-- `transaction_result_unique` instantiated: reversed `deps` lists, sources sent in another order and
+    source 0 sent twice — same value slots as the D1 transaction -/
+example (j : Nat) :
+    ((transaction false (SchedScript.F d1Graph) [(0, ()), (1, ()), (0, ())] d1Graph').nodes.get j).val =
+    ((transaction false (SchedScript.F d1Graph) [(1, ()), (0, ())] d1Graph).nodes.get j).val := by
+  refine (transaction_result_unique (s := d1Graph) (s' := d1Graph') d1_wf d1'_wf d1_perm d1_init d1'_init
+    d1_srcs ?_ ?_ j).1
+  · intro p hp
+    simp only [List.mem_cons, List.not_mem_nil, or_false] at hp
+    rcases hp with rfl | rfl | rfl <;> exact ⟨rfl, by decide⟩
+  · intro k _
+    rcases k with _ | _ | _ | _ | k
+    · decide
+    · decide
+    · decide
+    · decide
+    · rw [store_get_ge (fireSources [(0, ()), (1, ()), (0, ())] d1Graph').nodes (k + 4)
+          (by have : (fireSources [(0, ()), (1, ()), (0, ())] d1Graph').nodes.arr.size = 4 := by decide
+              omega),
+        store_get_ge (fireSources [(1, ()), (0, ())] d1Graph).nodes (k + 4)
+          (by have : (fireSources [(1, ()), (0, ())] d1Graph).nodes.arr.size = 4 := by decide
+              omega)]
+      exact ⟨rfl, rfl⟩
 
 end Sched
 end SodiumVerif
